@@ -1,14 +1,39 @@
 #!/usr/bin/env python3
-# Generates the gated copy of /repo/store/sqlite.go (imports rewritten to the
-# vsql / vsync wrappers) and the overlay file. Fails loudly if the rewrite rule
-# no longer applies to the current tree.
-import json, sys, os
+# Generates gated copies of the non-test Go files of /repo/store that import database/sql or sync
+# (imports rewritten to the vsql / vsync wrappers, which pass a scheduling gate before every SQL
+# operation and every Mutex.Lock) and the overlay file. /repo is not touched. Fails loudly only if no
+# file of the store package imports database/sql any more (then there is nothing to gate).
+import json, sys, os, re, glob
 root = os.environ.get('VERIF_ROOT', '/verif')
-src = open('/repo/store/sqlite.go').read()
-n1 = src.count('\t"database/sql"\n'); n2 = src.count('\t"sync"\n')
-if n1 != 1 or n2 != 1:
-    print('HARNESS-ERROR: store/sqlite.go no longer imports "database/sql" and "sync" exactly once; gate overlay cannot be generated'); sys.exit(3)
-src = src.replace('\t"database/sql"\n', '\tsql "verif/h/vsql"\n').replace('\t"sync"\n', '\tsync "verif/h/vsync"\n')
-os.makedirs(root + '/bin', exist_ok=True)
-open(root + '/bin/sqlite_gated.go.txt', 'w').write(src)
-json.dump({"Replace": {"/repo/store/sqlite.go": root + "/bin/sqlite_gated.go.txt"}}, open(root + '/bin/ov_gate.json', 'w'))
+os.makedirs(root + '/bin/gated', exist_ok=True)
+for f in glob.glob(root + '/bin/gated/*'):
+    os.remove(f)
+repl = {}
+n_sql = n_sync = 0
+for path in sorted(glob.glob('/repo/store/*.go')):
+    if path.endswith('_test.go'):
+        continue
+    src = open(path).read()
+    # import specs: optional alias, then the quoted path (inside an import block or a single import line)
+    def sub(pkg, default, new):
+        global src
+        pat = re.compile(r'(?m)^(\s*(?:import\s+)?)(?:([A-Za-z_][A-Za-z0-9_]*|\.)\s+)?"' + re.escape(pkg) + r'"')
+        cnt = 0
+        def r(m):
+            nonlocal cnt
+            cnt += 1
+            alias = m.group(2) or default
+            return '%s%s "%s"' % (m.group(1), alias, new)
+        src = pat.sub(r, src)
+        return cnt
+    a = sub('database/sql', 'sql', 'verif/h/vsql')
+    b = sub('sync', 'sync', 'verif/h/vsync')
+    n_sql += a; n_sync += b
+    if a or b:
+        out = root + '/bin/gated/' + os.path.basename(path) + '.txt'
+        open(out, 'w').write(src)
+        repl[path] = out
+if n_sql == 0:
+    print('HARNESS-ERROR: no file of /repo/store imports "database/sql"; the gate overlay cannot be generated'); sys.exit(3)
+json.dump({"Replace": repl}, open(root + '/bin/ov_gate.json', 'w'))
+print('gated overlay: %d file(s), %d database/sql import(s), %d sync import(s)' % (len(repl), n_sql, n_sync))
